@@ -788,5 +788,15 @@ V('C10', 'viewer-split-remembered-by-identity', 'fire', 'C10.R6', 'batched split
   ('src/pyhf/tensor/common.py', "        data = tensorlib.einsum('...j->j...', tensorlib.astensor(data))\n        return [\n            tensorlib.einsum('j...->...j', tensorlib.gather(data, idx))\n            for idx in indices\n        ]\n", "        if selection is None and data is self._last_split[0]:\n            return self._last_split[1]\n        transposed = tensorlib.einsum('...j->j...', tensorlib.astensor(data))\n        parts = [\n            tensorlib.einsum('j...->...j', tensorlib.gather(transposed, idx))\n            for idx in indices\n        ]\n        if selection is None:\n            self._last_split = (data, parts)\n        return parts\n"))
 V('C10', 'viewer-split-local-rename', 'silent', '', 'batched split with the transposed tensor in its own local',
   ('src/pyhf/tensor/common.py', "        data = tensorlib.einsum('...j->j...', tensorlib.astensor(data))\n        return [\n            tensorlib.einsum('j...->...j', tensorlib.gather(data, idx))\n            for idx in indices\n        ]\n", "        transposed = tensorlib.einsum('...j->j...', tensorlib.astensor(data))\n        parts = [\n            tensorlib.einsum('j...->...j', tensorlib.gather(transposed, idx))\n            for idx in indices\n        ]\n        return parts\n"))
+V('C10', 'widths-one-row-and-jax-sample-from-scale', 'fire', 'C10.R7', "constraint widths kept as one broadcasting row AND the jax sampler sized from the widths' shape",
+  ('src/pyhf/constraints.py', '                sigmas = default_backend.reshape(_normal_sigmas, (1, -1))\n                self._sigmas = default_backend.tile(sigmas, (self.batch_size, 1))\n', '                self._sigmas = default_backend.reshape(_normal_sigmas, (1, -1))\n'),
+  ('src/pyhf/tensor/jax_backend.py', '            osp_stats.norm(self.loc, self.scale).rvs(\n                size=sample_shape + self.loc.shape\n            ),\n', '            osp_stats.norm(self.loc, self.scale).rvs(\n                size=sample_shape + self.scale.shape\n            ),\n'))
+V('C10', 'widths-one-row-and-numpy-sample-from-scale', 'fire', 'C10.R7', "constraint widths kept as one broadcasting row AND the numpy sampler sized from the widths' shape",
+  ('src/pyhf/constraints.py', '                sigmas = default_backend.reshape(_normal_sigmas, (1, -1))\n                self._sigmas = default_backend.tile(sigmas, (self.batch_size, 1))\n', '                self._sigmas = default_backend.reshape(_normal_sigmas, (1, -1))\n'),
+  ('src/pyhf/tensor/numpy_backend.py', '        return norm(self.loc, self.scale).rvs(size=sample_shape + self.loc.shape)  # type: ignore[no-any-return]\n', '        return norm(self.loc, self.scale).rvs(size=sample_shape + self.scale.shape)  # type: ignore[no-any-return]\n'))
+V('C10', 'widths-one-row-only', 'silent', '', 'constraint widths kept as one broadcasting row (samplers size from the means)',
+  ('src/pyhf/constraints.py', '                sigmas = default_backend.reshape(_normal_sigmas, (1, -1))\n                self._sigmas = default_backend.tile(sigmas, (self.batch_size, 1))\n', '                self._sigmas = default_backend.reshape(_normal_sigmas, (1, -1))\n'))
+V('C10', 'jax-sample-from-scale-only', 'silent', '', "jax sampler sized from the widths' shape (widths carry every batch row)",
+  ('src/pyhf/tensor/jax_backend.py', '            osp_stats.norm(self.loc, self.scale).rvs(\n                size=sample_shape + self.loc.shape\n            ),\n', '            osp_stats.norm(self.loc, self.scale).rvs(\n                size=sample_shape + self.scale.shape\n            ),\n'))
 V("C13", "code4-exponent-mask-strict", "fire", "C13.R3", "code 4 takes exponent 1 (a constant) exactly at |alpha| = alpha0",
   ("src/pyhf/interpolators/code4.py", "            exponents >= self.__alpha0, exponents, self.ones", "            exponents > self.__alpha0, exponents, self.ones"))
